@@ -751,8 +751,11 @@ func (ro *RedisOutput) rdbReplayBisync(ctx context.Context, runID string, fullSy
 						return err
 					}
 				}
+				// markers, latest records and journals that the opposite link keeps in the
+				// source are bookkeeping, exactly as in the incremental path
 				if ro.outFilter.FilterKey(string(e.Key)) ||
-					ro.outFilter.FilterSlot(string(e.Key)) {
+					ro.outFilter.FilterSlot(string(e.Key)) ||
+					isBisyncNamespaceKey(string(e.Key)) {
 					filterOut = true
 				}
 			}
